@@ -39,7 +39,7 @@ def run(ctx):
             pool.append((gen.tt(gen_prog.guard(body, b"", cost, ext)), gen.tt(b""), "directed-noncanonical-guard"))
     lines = []
     for p, e, tag in pool:
-        f = gen_prog.random_flags(r, 0.15)
+        f = runlib.pick_flags(r, tag, 0.15)
         add = 0
         while add == 0:
             add = gen_prog.MEMPOOL_MODE if r.random() < 0.25 else sum(b for b in gen_prog.RESTRICTION_BITS if r.random() < 0.3)
